@@ -5,7 +5,7 @@
    open_registry() reads that file; a fresh instance of class k is set from the cache". *)
 From Coq Require Import List NArith ZArith Bool.
 Import ListNotations.
-Require Import Base.Wire Base.PyStr C15.Model C15.Lemmas C15.Names C15.Codec C15.Split C15.File C15.FileMulti C15.Tree C15.Final C15.Atomic C15.Gen C15.Restart C15.Wrapped C15.NormRT C15.Reset C15.ResetWorld C15.Width C15.Api C15.ResetParent.
+Require Import Base.Wire Base.PyStr C15.Model C15.Lemmas C15.Names C15.Codec C15.Split C15.File C15.FileMulti C15.Tree C15.Final C15.Atomic C15.Gen C15.Restart C15.Wrapped C15.NormRT C15.Reset C15.ResetWorld C15.Width C15.Api C15.ResetParent C15.UserVal.
 Require Import gen.T15.
 
 (* ---- names: split inverts join for every non-empty list of names (full statement since the
@@ -487,3 +487,48 @@ Theorem C15_general_is_not_the_parent :
   resolve nat (forget nat (ANC [58; 110] [35; 97]) s) (ANC [58; 110] [35; 97]) = 2%nat /\ g nat s = 1%nat.
 Proof. exact general_is_not_the_parent. Qed.
 Print Assumptions C15_general_is_not_the_parent.
+
+(* ---- since the repair of C15.F33 the regenerated table has no exception: a rejected set leaves the stored value
+   untouched for EVERY registry value class defined anywhere in src/ and plugins/ *)
+Theorem C15_reject_atomic_every_class :
+  forall name, In name INVENTORY ->
+  exists pset psetvalue, In (name, pset, psetvalue) ATOMIC_TABLE /\
+  forall o,
+    (snd (fst (exec pset o false)) = true -> fst (fst (exec pset o false)) = false) /\
+    (snd (fst (exec psetvalue o false)) = true -> fst (fst (exec psetvalue o false)) = false).
+Proof. exact reject_atomic_every_class. Qed.
+Print Assumptions C15_reject_atomic_every_class.
+
+(* the shape the Windows-only Boolean had before: store, then reject *)
+Theorem C15_store_then_reject_old_shape_refuted :
+  let old := SSeq (SSeq (STry SCheck (SSeq SCheck (SIf SSkip SError))) (SSeq SCheck SAssign)) (SSeq SCheck (SIf SError SSkip)) in
+  atomic old = false /\ exists o, fst (exec old o false) = (true, true).
+Proof. exact store_then_reject_old_shape. Qed.
+Print Assumptions C15_store_then_reject_old_shape_refuted.
+
+(* ---- user-specific values (repair of C15.F32): the scan of conf.registerUserValue finds the key of every user value
+   of the variable ... *)
+Theorem C15_user_scan_finds_own_keys :
+  forall g id, vstr id = true -> is_userid id = true -> scan_key_user g (g ++ DOT :: escape id) = Ok [[id]].
+Proof. exact scan_user_own. Qed.
+Print Assumptions C15_user_scan_finds_own_keys.
+
+(* ... and on the model a variable with two user values is saved, loaded without a read and saved again with the same
+   lines (an instance; the general statement for channel/network values is C15_save_is_idempotent_across_restarts) *)
+Theorem C15_user_values_survive_restart_partial :
+  match load_user_var ex_ud (cache_of ex_ulines) with
+  | Ok st => save_var ex_ud st = ex_ulines /\
+             map (fun e => fst (snd e)) (vnodes st) = [PS [104; 105]; PS [DQ]] /\
+             forallb (fun e => snd (snd e)) (vnodes st) = true
+  | Raise _ => False
+  end.
+Proof. exact user_values_survive_restart_partial. Qed.
+Print Assumptions C15_user_values_survive_restart_partial.
+
+Theorem C15_user_values_dropped_without_scan_refuted :
+  match load_var ex_ud (cache_of ex_ulines) with
+  | Ok st => save_var ex_ud st = [(join_names [[117]; [103]], [100])]
+  | Raise _ => False
+  end.
+Proof. exact user_values_dropped_without_scan. Qed.
+Print Assumptions C15_user_values_dropped_without_scan_refuted.
